@@ -18,6 +18,8 @@ bitflags! {
         const STRICT   = 1 << 2;
         const ESCAPES  = 1 << 3;
         const ACCESSED = 1 << 4;
+        /// Set once the escape analysis has passed the point where the binding is initialized.
+        const INITIALIZED = 1 << 5;
     }
 }
 
@@ -328,6 +330,11 @@ impl Scope {
     /// - If the binding access crosses a function border, the binding is marked as escaping.
     /// - If the binding access is in an eval or with scope, the binding is marked as escaping.
     pub fn access_binding(&self, name: &JsString, eval_or_with: bool) {
+        self.access_binding_inner(name, eval_or_with, false);
+    }
+
+    /// [`Scope::access_binding`], where `write` tells that the access assigns to the binding.
+    pub(crate) fn access_binding_inner(&self, name: &JsString, eval_or_with: bool, write: bool) {
         let mut crossed_function_border = false;
         let mut current = self;
         loop {
@@ -342,6 +349,16 @@ impl Scope {
                 if crossed_function_border || eval_or_with {
                     binding.flags.insert(BindingFlags::ESCAPES);
                 }
+                // An assignment that can happen before the initialization of a lexical binding has
+                // to throw a `ReferenceError` (reads in front of the declaration are rejected when
+                // the code is generated). Only bindings stored in an environment carry the
+                // information whether they are initialized, so such a binding cannot be local.
+                if write
+                    && binding.flags.is_lex()
+                    && !binding.flags.contains(BindingFlags::INITIALIZED)
+                {
+                    binding.flags.insert(BindingFlags::ESCAPES);
+                }
                 return;
             }
             if let Some(outer) = &current.inner.outer {
@@ -351,6 +368,39 @@ impl Scope {
                 current = outer;
             } else {
                 return;
+            }
+        }
+    }
+
+    /// Records that every access analysed from now on happens after the initialization of the
+    /// lexical binding `name` of this scope (see [`Scope::access_binding`]).
+    pub(crate) fn mark_initialized(&self, name: &JsString) {
+        self.insert_binding_flag(name, BindingFlags::INITIALIZED);
+    }
+
+    /// Keeps the binding `name` of this scope in its environment.
+    pub(crate) fn escape_binding(&self, name: &JsString) {
+        self.insert_binding_flag(name, BindingFlags::ESCAPES);
+    }
+
+    /// Sets `flag` on the binding `name` of this scope or of the nearest enclosing scope of the
+    /// same function that has it.
+    fn insert_binding_flag(&self, name: &JsString, flag: BindingFlags) {
+        let mut current = self;
+        loop {
+            if let Some(binding) = current
+                .inner
+                .bindings
+                .borrow_mut()
+                .iter_mut()
+                .find(|b| &b.name == name)
+            {
+                binding.flags.insert(flag);
+                return;
+            }
+            match &current.inner.outer {
+                Some(outer) if !current.inner.function => current = outer,
+                _ => return,
             }
         }
     }
